@@ -276,6 +276,323 @@ theorem lostInterrupt2_lost :
     let s := run init lostInterrupt2
     s.pending = true ∧ s.paused = false ∧ s.st = .running := by decide
 
+/-! ## The request reaches the thread — the thread never parks on it
+
+`interrupt()` is two stores.  A thread in the exit loop of `enter_safepoint` that loads `paused = true` after the
+first and `state` before the second does not `break`: it calls `park()`, and `interrupt()` never unparks
+(finding K17c).  Under the stronger guard `G2` (the thread does not execute that `state.load()` while a request is
+between its two stores; the host calls `resume()` only after `run` has returned, flag first) the thread never
+parks, so a pending request always ends in a state from which `interrupt_bounded` applies. -/
+
+def G2 (s : State) (a : Act) : Bool :=
+  G s a && (match a with
+    | .thread _ => !(s.pc == .spState && s.hostMid)
+    | .hresP => s.pc.terminal
+    | .hresS => s.pc.terminal && !s.paused
+    | _ => true)
+
+def runG2 (s : State) : List Act → State
+  | [] => s
+  | a :: r =>
+      if G2 s a then
+        match step s a with
+        | none => s
+        | some s' => runG2 s' r
+      else s
+
+def PC.roundTail : PC → Bool
+  | .roundBody | .resP | .resS => true
+  | _ => false
+
+structure Inv2 (s : State) : Prop where
+  base : Inv s
+  a : s.pending = true → s.pc.inRound = false
+  b : s.st = .pausedAtSafepoint → s.pc.roundTail = true
+  c : s.pc = .spState → s.paused = true
+  k : s.paused = true → s.pending = true ∨ s.pc.inRound = true ∨ s.st = .interrupted
+  d : s.pc ≠ .parked
+  e : s.pc = .resS → s.paused = false
+
+theorem g2_g {s : State} {a : Act} (h : G2 s a = true) : G s a = true := by
+  simp only [G2, Bool.and_eq_true] at h; exact h.1
+
+theorem step_inv2 {s s' : State} {a : Act} (h : Inv2 s) (hg : G2 s a = true) (hs : step s a = some s') :
+    Inv2 s' := by
+  have hb := step_inv h.base (g2_g hg) hs
+  obtain ⟨h0, ha, hb2, hc, hk, hd, he⟩ := h
+  cases a with
+  | thread c =>
+    simp only [step] at hs; cases hs
+    have hG := g2_g hg
+    have hg2 : ¬ (s.pc = .spState ∧ s.hostMid = true) := by
+      simp only [G2, Bool.and_eq_true] at hg
+      have := hg.2
+      intro hx; simp [hx.1, hx.2] at this
+    have hgr : s.pending = true → ¬ (s.pc.inRound = true ∨ (s.pc = .exec ∧ c = .beginRound)) := by
+      intro hp hx
+      simp [G, hp] at hG
+      rcases hx with hx | ⟨hx1, hx2⟩
+      · rw [hG.1] at hx; cases hx
+      · rcases hG.2 with hh | hh
+        · exact hh hx1
+        · exact hh hx2
+    have hcI := fun hx => (h0 hx)
+    cases hp : s.pc with
+    | dispatch =>
+      by_cases hpa : s.paused = true
+      · have e : stepT s c = { s with pc := .sawPaused } := by simp [stepT, hp, hpa]
+        rw [e] at hb ⊢
+        refine ⟨hb, ?_, ?_, ?_, ?_, ?_, ?_⟩ <;> simp_all [PC.inRound, PC.roundTail]
+      · have e : stepT s c = { s with pc := .exec } := by simp [stepT, hp, hpa]
+        rw [e] at hb ⊢
+        refine ⟨hb, ?_, ?_, ?_, ?_, ?_, ?_⟩ <;> simp_all [PC.inRound, PC.roundTail]
+    | sawPaused =>
+      cases hst : s.st with
+      | interrupted =>
+        have e : stepT s c = { s with pc := .errored, pending := false } := by simp [stepT, hp, hst]
+        rw [e] at hb ⊢
+        refine ⟨hb, ?_, ?_, ?_, ?_, ?_, ?_⟩ <;> simp_all [PC.inRound, PC.roundTail]
+      | pausedAtSafepoint =>
+        have := hb2 hst; simp [hp, PC.roundTail] at this
+      | running =>
+        have e : stepT s c = { s with pc := .exec } := by simp [stepT, hp, hst]
+        rw [e] at hb ⊢
+        refine ⟨hb, ?_, ?_, ?_, ?_, ?_, ?_⟩ <;> simp_all [PC.inRound, PC.roundTail]
+    | exec =>
+      have hnp : c = .beginRound → s.pending = false := by
+        intro hc'
+        cases hpd : s.pending
+        · rfl
+        · exact absurd (Or.inr ⟨hp, hc'⟩) (hgr hpd)
+      cases c with
+      | beginRound =>
+        have hpd := hnp rfl
+        have e : stepT s .beginRound = { s with pc := .roundP } := by simp [stepT, hp]
+        rw [e] at hb ⊢
+        refine ⟨hb, ?_, ?_, ?_, ?_, ?_, ?_⟩ <;> simp_all [PC.inRound, PC.roundTail]
+      | finish =>
+        by_cases hdp : s.depth = 0
+        · have e : stepT s .finish = { s with pc := .finished } := by simp [stepT, hp, hdp]
+          rw [e] at hb ⊢
+          refine ⟨hb, ?_, ?_, ?_, ?_, ?_, ?_⟩ <;> simp_all [PC.inRound, PC.roundTail]
+        · have e : stepT s .finish = { s with pc := .dispatch } := by simp [stepT, hp, hdp]
+          rw [e] at hb ⊢
+          refine ⟨hb, ?_, ?_, ?_, ?_, ?_, ?_⟩ <;> simp_all [PC.inRound, PC.roundTail]
+      | plain =>
+        have e : stepT s .plain = { s with pc := .dispatch } := by simp [stepT, hp]
+        rw [e] at hb ⊢
+        refine ⟨hb, ?_, ?_, ?_, ?_, ?_, ?_⟩ <;> simp_all [PC.inRound, PC.roundTail]
+      | callNative k =>
+        have e : stepT s (.callNative k) = { s with pc := .native (some k) } := by simp [stepT, hp]
+        rw [e] at hb ⊢
+        refine ⟨hb, ?_, ?_, ?_, ?_, ?_, ?_⟩ <;> simp_all [PC.inRound, PC.roundTail]
+      | nativeLoop =>
+        have e : stepT s .nativeLoop = { s with pc := .native none } := by simp [stepT, hp]
+        rw [e] at hb ⊢
+        refine ⟨hb, ?_, ?_, ?_, ?_, ?_, ?_⟩ <;> simp_all [PC.inRound, PC.roundTail]
+      | callPrim =>
+        have e : stepT s .callPrim = { s with pc := .spExit } := by simp [stepT, hp]
+        rw [e] at hb ⊢
+        refine ⟨hb, ?_, ?_, ?_, ?_, ?_, ?_⟩ <;> simp_all [PC.inRound, PC.roundTail]
+      | nest =>
+        have e : stepT s .nest = { s with pc := .dispatch, depth := s.depth + 1 } := by simp [stepT, hp]
+        rw [e] at hb ⊢
+        refine ⟨hb, ?_, ?_, ?_, ?_, ?_, ?_⟩ <;> simp_all [PC.inRound, PC.roundTail]
+      | unnest =>
+        have e : stepT s .unnest = { s with pc := .dispatch, depth := s.depth - 1 } := by simp [stepT, hp]
+        rw [e] at hb ⊢
+        refine ⟨hb, ?_, ?_, ?_, ?_, ?_, ?_⟩ <;> simp_all [PC.inRound, PC.roundTail]
+    | native k =>
+      cases k with
+      | none =>
+        have e : stepT s c = s := by simp [stepT, hp]
+        rw [e] at hb ⊢
+        exact ⟨hb, ha, hb2, hc, hk, hd, he⟩
+      | some k =>
+        cases k with
+        | zero =>
+          have e : stepT s c = { s with pc := .dispatch } := by simp [stepT, hp]
+          rw [e] at hb ⊢
+          refine ⟨hb, ?_, ?_, ?_, ?_, ?_, ?_⟩ <;> simp_all [PC.inRound, PC.roundTail]
+        | succ k =>
+          have e : stepT s c = { s with pc := .native (some k) } := by simp [stepT, hp]
+          rw [e] at hb ⊢
+          refine ⟨hb, ?_, ?_, ?_, ?_, ?_, ?_⟩ <;> simp_all [PC.inRound, PC.roundTail]
+    | roundP =>
+      have hpd : s.pending = false := by
+        cases hpd : s.pending
+        · rfl
+        · have := ha hpd; simp [hp, PC.inRound] at this
+      have e : stepT s c = { s with paused := true, pc := .roundS } := by simp [stepT, hp]
+      rw [e] at hb ⊢
+      refine ⟨hb, ?_, ?_, ?_, ?_, ?_, ?_⟩ <;> simp_all [PC.inRound, PC.roundTail]
+    | roundS =>
+      have hpd : s.pending = false := by
+        cases hpd : s.pending
+        · rfl
+        · have := ha hpd; simp [hp, PC.inRound] at this
+      have e : stepT s c = { s with st := .pausedAtSafepoint, pc := .roundBody } := by simp [stepT, hp]
+      rw [e] at hb ⊢
+      refine ⟨hb, ?_, ?_, ?_, ?_, ?_, ?_⟩ <;> simp_all [PC.inRound, PC.roundTail]
+    | roundBody =>
+      have hpd : s.pending = false := by
+        cases hpd : s.pending
+        · rfl
+        · have := ha hpd; simp [hp, PC.inRound] at this
+      have e : stepT s c = { s with pc := .resP } := by simp [stepT, hp]
+      rw [e] at hb ⊢
+      refine ⟨hb, ?_, ?_, ?_, ?_, ?_, ?_⟩ <;> simp_all [PC.inRound, PC.roundTail]
+    | resP =>
+      have hpd : s.pending = false := by
+        cases hpd : s.pending
+        · rfl
+        · have := ha hpd; simp [hp, PC.inRound] at this
+      have e : stepT s c = { s with paused := false, pc := .resS } := by simp [stepT, hp]
+      rw [e] at hb ⊢
+      refine ⟨hb, ?_, ?_, ?_, ?_, ?_, ?_⟩ <;> simp_all [PC.inRound, PC.roundTail]
+    | resS =>
+      have hpd : s.pending = false := by
+        cases hpd : s.pending
+        · rfl
+        · have := ha hpd; simp [hp, PC.inRound] at this
+      have hpz : s.paused = false := he hp
+      have e : stepT s c = { s with st := .running, pc := .dispatch } := by simp [stepT, hp]
+      rw [e] at hb ⊢
+      refine ⟨hb, ?_, ?_, ?_, ?_, ?_, ?_⟩ <;> simp_all [PC.inRound, PC.roundTail]
+    | spExit =>
+      by_cases hpa : s.paused = true
+      · have e : stepT s c = { s with pc := .spState } := by simp [stepT, hp, hpa]
+        rw [e] at hb ⊢
+        refine ⟨hb, ?_, ?_, ?_, ?_, ?_, ?_⟩ <;> simp_all [PC.inRound, PC.roundTail]
+      · have e : stepT s c = { s with pc := .dispatch } := by simp [stepT, hp, hpa]
+        rw [e] at hb ⊢
+        refine ⟨hb, ?_, ?_, ?_, ?_, ?_, ?_⟩ <;> simp_all [PC.inRound, PC.roundTail]
+    | spState =>
+      have hpa := hc hp
+      have hnm : s.hostMid = false := by
+        cases hm : s.hostMid
+        · rfl
+        · exact absurd ⟨hp, hm⟩ hg2
+      have hint : s.st = .interrupted := by
+        rcases hk hpa with h1 | h1 | h1
+        · rcases (hcI h1).2 with h2 | h2
+          · exact h2
+          · rw [hnm] at h2; cases h2
+        · simp [hp, PC.inRound] at h1
+        · exact h1
+      have e : stepT s c = { s with pc := .dispatch } := by simp [stepT, hp, hint]
+      rw [e] at hb ⊢
+      refine ⟨hb, ?_, ?_, ?_, ?_, ?_, ?_⟩ <;> simp_all [PC.inRound, PC.roundTail]
+    | parked => exact absurd hp hd
+    | errored =>
+      have e : stepT s c = s := by simp [stepT, hp]
+      rw [e] at hb ⊢
+      exact ⟨hb, ha, hb2, hc, hk, hd, he⟩
+    | finished =>
+      have e : stepT s c = s := by simp [stepT, hp]
+      rw [e] at hb ⊢
+      exact ⟨hb, ha, hb2, hc, hk, hd, he⟩
+  | intP =>
+    simp only [step] at hs; cases hs
+    have hnr : s.pc.inRound = false := by
+      have := g2_g hg; simpa [G] using this
+    exact ⟨hb, fun _ => hnr, hb2, fun _ => rfl, fun _ => Or.inl rfl, hd,
+      fun hx => by rw [hx] at hnr; simp [PC.inRound] at hnr⟩
+  | intS =>
+    simp only [step] at hs
+    split at hs
+    · cases hs
+      exact ⟨hb, ha, fun hx => by simp at hx, hc, fun _ => Or.inr (Or.inr rfl), hd, he⟩
+    · cases hs
+  | hresP =>
+    simp only [step] at hs; cases hs
+    have ht : s.pc.terminal = true := by
+      simp only [G2, Bool.and_eq_true] at hg; exact hg.2
+    refine ⟨hb, ha, hb2, ?_, fun hx => by simp at hx, hd, fun _ => rfl⟩
+    intro hx; rw [hx] at ht; simp [PC.terminal] at ht
+  | hresS =>
+    simp only [step] at hs; cases hs
+    have ht : s.pc.terminal = true ∧ s.paused = false := by
+      simp only [G2, Bool.and_eq_true] at hg
+      have := hg.2; simpa using this
+    refine ⟨hb, ha, fun hx => by simp at hx, hc, ?_, hd, he⟩
+    intro hx; rw [ht.2] at hx; cases hx
+  | rerun =>
+    simp only [step] at hs
+    split at hs
+    · rename_i ht
+      cases hs
+      refine ⟨hb, ?_, ?_, ?_, ?_, by simp, by simp⟩
+      · intro _; simp [PC.inRound]
+      · intro hx; have := hb2 hx; rcases ht with ht | ht <;> simp [ht, PC.roundTail] at this
+      · intro hx; simp at hx
+      · intro hx
+        rcases hk hx with h1 | h1 | h1
+        · exact Or.inl h1
+        · rcases ht with ht | ht <;> simp [ht, PC.inRound] at h1
+        · exact Or.inr (Or.inr h1)
+    · cases hs
+
+theorem inv2_init : Inv2 init :=
+  ⟨by intro h; simp [init] at h, by simp [init], by simp [init], by simp [init], by simp [init],
+   by simp [init], by simp [init]⟩
+
+theorem runG2_inv (sched : List Act) : ∀ {s : State}, Inv2 s → Inv2 (runG2 s sched) := by
+  induction sched with
+  | nil => intro s h; exact h
+  | cons a r ih =>
+    intro s h
+    simp only [runG2]
+    split
+    · rename_i hg
+      cases hs : step s a with
+      | none => exact h
+      | some s' => exact ih (step_inv2 h hg hs)
+    · exact h
+
+/-- **Under the guard `G2` the evaluation thread never parks on a request**, and a complete pending request finds
+it ready: flag raised, state `Interrupted`, not inside a round, not parked — `interrupt_bounded` then bounds the
+return (for programs whose native regions are bounded). -/
+theorem interrupt_delivered_partial (sched : List Act) :
+    let s := runG2 init sched
+    s.pc ≠ .parked ∧
+    (s.pending = true → s.hostMid = false →
+      s.paused = true ∧ s.st = .interrupted ∧ s.pc.inRound = false) := by
+  have h := runG2_inv sched inv2_init
+  refine ⟨h.d, fun hp hm => ?_⟩
+  have := h.base hp
+  refine ⟨this.1, ?_, h.a hp⟩
+  rcases this.2 with h1 | h1
+  · exact h1
+  · rw [hm] at h1; cases h1
+
+/-- The request that parks the thread (K17c): `paused` is stored, the thread — in the exit loop of a primitive's
+safepoint — loads `paused = true`, then `state = Running`, and parks; `Interrupted` is stored afterwards. -/
+def parkedForever : List Act :=
+  [.thread .plain, .thread .callPrim,       -- poll, an instruction that calls a primitive; now at the exit loop
+   .intP,                                    -- host: paused.store(true)
+   .thread .plain, .thread .plain,           -- thread: paused.load() = true; state.load() = Running → park()
+   .intS]                                    -- host: state.store(Interrupted)
+
+theorem parkedForever_parks :
+    let s := run init parkedForever
+    s.pc = .parked ∧ s.pending = true ∧ s.paused = true ∧ s.st = .interrupted := by decide
+
+/-- … and stays parked whatever else the thread's schedule says (`interrupt()` and `resume()` never unpark). -/
+theorem parked_stays (cs : List Choice) (s : State) (h : s.pc = .parked) : (runT s cs).pc = .parked := by
+  induction cs generalizing s with
+  | nil => exact h
+  | cons c r ih => simp only [runT]; apply ih; simp [stepT, h]
+
+/-- The full delivery statement is false for the code as it is. -/
+theorem not_interrupt_delivered :
+    ¬ ∀ sched : List Act, (run init sched).pc ≠ .parked := by
+  intro h
+  exact h parkedForever parkedForever_parks.1
+
+/-- `G2` rejects that schedule at the thread's `state.load()`. -/
+theorem parkedForever_guard : runG2 init parkedForever = run init (parkedForever.take 4) := by decide
+
 /-! ## Native loops -/
 
 /-- A native back-edge without poll (K17b): the request is complete and is never seen. -/
